@@ -6,7 +6,7 @@ static const char *opn[] = { "lock", "lock_low", "lock_high", "spinlock", "trylo
 
 static struct {
     ABT_mutex m;
-    ABT_mutex_memory mem;
+    ABT_mutex_memory mem WL_ALIGNED_MEMORY;
     int recursive, cs_yield;
     int holder, depth;       /* harness-side holder model */
     long counter, expected;  /* incremented inside critical sections */
